@@ -190,8 +190,14 @@ impl TransportReader {
 
         #[cfg(dnp3_verif)]
         if !peek {
-            if let TransportData::Fragment(fragment) = &transport_data {
-                crate::verif::hooks::fragment_popped(fragment.info.addr.link.raw_value(), fragment.data);
+            match &transport_data {
+                TransportData::Fragment(fragment) => {
+                    crate::verif::hooks::fragment_popped(fragment.info.addr.link.raw_value(), fragment.data)
+                }
+                TransportData::LinkLayerMessage(msg) => crate::verif::hooks::link_message_popped(
+                    msg.source.raw_value(),
+                    msg.message == crate::transport::LinkLayerMessageType::LinkStatusResponse,
+                ),
             }
         }
 
